@@ -294,8 +294,27 @@ func c13Versioned(r *R) {
 }
 
 func c13Ready(r *R) {
-	cl := r.fn("C13.5", "impl", "manager", "Start$1")
+	// the goroutine manager.Start launches (a closure, or a method introduced for it)
+	var cl *ssa.Function
+	if start := r.fn("C13.5", "impl", "manager", "Start"); start != nil {
+		for _, ci := range core.CallSites(start) {
+			g, isGo := ci.(*ssa.Go)
+			if !isGo {
+				continue
+			}
+			var body *ssa.Function
+			if mc, ok := g.Call.Value.(*ssa.MakeClosure); ok {
+				body, _ = mc.Fn.(*ssa.Function)
+			} else if sc := g.Call.StaticCallee(); sc != nil && r.p.InProd(core.Unwrap(sc)) {
+				body = core.Unwrap(sc)
+			}
+			if body != nil && len(r.p.CallsTo(body, false, "(*channels.Channels).Start")) > 0 {
+				cl = body
+			}
+		}
+	}
 	if cl == nil {
+		r.c.Stuck("C13.5", "anchor:impl.manager.Start→goroutine", "", "the goroutine in which manager.Start runs the migration no longer resolves")
 		return
 	}
 	st := r.one("C13.5", cl, "(*channels.Channels).Start")
